@@ -26,6 +26,26 @@ func (r *recLogDB) SaveRaftState(uds []pb.Update, shardID uint64) error {
 	return err
 }
 
+// SaveSnapshots: C08 - a snapshot of an on-disk state machine is metadata
+// only; when it is recorded the state machine's own durable image must
+// already cover everything the snapshot claims (OnDiskIndex), otherwise the
+// log can be compacted past what the replica can recover.
+func (r *recLogDB) SaveSnapshots(uds []pb.Update) error {
+	h := r.sim.hosts[r.host]
+	if h.inc == r.inc && h.sm != nil && h.sm.Kind == KindOnDisk && h.sm.Opened && !h.sm.Dead() {
+		for _, ud := range uds {
+			ss := ud.Snapshot
+			if ss.OnDiskIndex > 0 && !ss.Witness && !ss.Imported && ss.Type != pb.OnDiskStateMachine+100 {
+				r.sim.ctx.Count("probe.ondisk_snapshot_recorded", 1)
+				if ss.OnDiskIndex > h.sm.DurableIndex {
+					r.sim.ctx.Violate("C08", "snapshot-ahead-of-durable-state", "replica %d records a snapshot at index %d claiming its on-disk state machine holds everything up to index %d, but the state machine's durable image only covers index %d", h.replicaID, ss.Index, ss.OnDiskIndex, h.sm.DurableIndex)
+				}
+			}
+		}
+	}
+	return r.ILogDB.SaveSnapshots(uds)
+}
+
 type recFactory struct {
 	inner config.LogDBFactory
 	sim   *Sim
